@@ -451,3 +451,5 @@ class _Pool:
 
 
 POOL = _Pool()
+import os as _os
+_os.register_at_fork(after_in_child=POOL.discard)  # threads do not survive fork
